@@ -5,8 +5,13 @@ CLAIMED = {
          "Every destructive open/unlink/rmtree site in every file class is enumerated and proved to be reached only when "
          "the path does not exist or overwriting was requested; plumbing of force_overwrite from each save_*/open, mode "
          "sets and read-never-writes are decided over the whole formats package.", _NOTE, "DESIGN.md §4 C20"),
+ "C03": ("forward abstract interpretation (freshness/alias lattice, path-sensitive) + CFG must-pass-through + inter-procedural effect analysis across py/pyx/C (clang AST)",
+         "Every Trajectory construction site is enumerated and each argument required fresh is proved FRESH in every path world; "
+         "slice co-indexes every per-frame field (incl. the cached traces) with the same key; every write that bypasses the xyz setter "
+         "resets the cache before normal exit; join/stack completeness; no public analysis/save function writes through its trajectory "
+         "argument (definite writes found in Python, Cython and C bodies).", _NOTE, "DESIGN.md §4 C03"),
 }
 _PENDING = "check not built yet in this round (design in DESIGN.md §4); will be claimed when its rules run clean"
-NA = {k: _PENDING for k in ["C01","C02","C03","C04","C05","C06","C07","C08","C09","C10","C11","C12","C13","C14","C15","C17","C18","C19"]}
+NA = {k: _PENDING for k in ["C01","C02","C04","C05","C06","C07","C08","C09","C10","C11","C12","C13","C14","C15","C17","C18","C19"]}
 NA["C16"] = ("every clause is numerical equality of computed arrays with closed-form expressions; no structural "
              "necessary condition covers more than one of the fifteen functions (DESIGN.md §5)")
